@@ -14,6 +14,7 @@ def run(tier, seed):
     dqstate_conformance(v, PROP)
     root_queue(v, tier, seed)
     retarget_window(v, tier, seed)
+    chained_targets(v, tier, seed)
     n = 1 if tier == "quick" else 6
     runs = []
     for k in range(n):
@@ -25,6 +26,31 @@ def run(tier, seed):
     if tier != "quick":
         asan_lanes(v, PROP, seed)
     return v.finish()
+
+def chained_targets(v, tier, seed):
+    """The quantifier's 'chained targets': exactly-once and no stranding through target-queue hierarchies (mixed serial /
+    concurrent levels, synchronous calls recursing through them).  The hierarchy machine is C03's (Chain.tla,
+    ChainWordTrace); here its driver's exactly-once oracle, hangs and crashes are C01's verdict."""
+    drv = build_driver("drv_chain")
+    d = rundir(PROP)
+    shapes = [4, 7, 3] if tier == "quick" else [4, 7, 3, 2, 1, 0, 5, 4, 7, 3]
+    for i, shp in enumerate(shapes):
+        s = seed * 1000 + 900 + i
+        tr = os.path.join(d, "chain_%d.ndjson" % i)
+        rc, out, err = sh([drv, tr, str(s), str(2 + i % 2), "5", "25", str(shp), str(2 + i % 2), "1", "3"], timeout=400)
+        if rc == 124:
+            raise Broken("drv_chain timed out (shape %d seed %d)" % (shp, s))
+        fails = re.findall(r"ORACLE-FAIL \w+ (.*)", err)
+        mine = [f for f in fails if "exactly once" in f or "never ran" in f or "stranded" in f or "more than once" in f]
+        if rc in (70, 71) or mine:
+            what = "; ".join(mine[:3]) or {70: "crash inside libdispatch", 71: "hang: work stranded in the hierarchy / a synchronous call never returned"}[rc]
+            v.violation("chained targets (shape %d seed %d): %s" % (shp, s, what),
+                        save_replay(PROP, "chain_fail_%d.ndjson" % s, src=tr) if os.path.exists(tr) else tr)
+        elif rc not in (0, 2):
+            raise Broken("drv_chain failed rc=%d: %s" % (rc, err[-500:]))
+        else:
+            v.traces += 1
+
 
 def retarget_window(v, tier, seed):
     """Retarget.tla: a synchronous call through a two-level hierarchy racing dispatch_set_target_queue() of the top
